@@ -286,6 +286,55 @@ def run(ctx):
         except Exception as e:
             ctx.fail('dask_path_raised', inp, impl=repr(e))
 
+    # ---- configurations: a small dask 'array.chunk-size' (arrays created inside an operation with automatic chunks are then split
+    # along time although the signal's time axis is one chunk); long enough signals to exceed it
+    for c in range(16 if ctx.tier == 'quick' else 120):
+        cls = rng.choice(['BasebandSignal', 'BasebandSignal', 'DualPolarizationSignal'])
+        L = rng.choice([3000, 6000, 6001])
+        ss = (2, 2) if cls == 'DualPolarizationSignal' else (rng.choice([1, 3]),)
+        single = rng.random() < 0.3
+        data = (nprng.standard_normal((L,) + ss) + 1j * nprng.standard_normal((L,) + ss)).astype(np.complex64 if single else np.complex128)
+        zn = X.make_signal(rng, cls, L, sshape=ss, data=data)
+        cands = [('time_shift', lambda s_: pb.time_shift(s_, 1.75)), ('time_shift_crop', lambda s_: pb.time_shift(s_, -2.5, crop=True)),
+                 ('snippet', lambda s_: pb.snippet(s_, 100.25, 512)), ('freq_shift', lambda s_: pb.freq_shift(s_, 0.3 * s_.sample_rate / L)),
+                 ('fast_len', lambda s_: pb.fast_len(s_)), ('to_intensity', lambda s_: s_.to_intensity()),
+                 ('coherent', lambda s_: pb.coherent_dedispersion(s_, pb.DM(2e-7))), ('incoherent', lambda s_: pb.incoherent_dedispersion(s_, pb.DM(0.3)))]
+        name, fn = rng.choice(cands + cands[:4])
+        csize = rng.choice(['16KiB', '8KiB', '64KiB'])
+        chunks = (-1,) + tuple(rng.choice([-1, 1]) for _ in ss)
+        sch = rng.choice(['synchronous', 'threads'])
+        inp = dict(op=name, cls=cls, shape=list(data.shape), dtype=str(data.dtype), chunks=list(chunks), config={'array.chunk-size': csize}, scheduler=sch)
+        ctx.seen(inp); ctx.count('op:' + name); ctx.count('config:chunk-size')
+        try:
+            want = fn(zn)
+        except Exception as e:
+            ctx.count('numpy_path_raised:' + type(e).__name__)
+            continue
+        try:
+            with dask.config.set({'array.chunk-size': csize, 'scheduler': sch}):
+                zd = type(zn).like(zn, da.from_array(data, chunks=chunks))
+                got = fn(zd)
+                lazy = isinstance(got.data, da.Array)
+                gc = got.compute()
+        except Exception as e:
+            ctx.fail('dask_path_raised', inp, impl=repr(e))
+            continue
+        if not lazy:
+            ctx.fail('result_not_dask_backed', inp)
+            continue
+        why = same_meta(gc, want)
+        if why:
+            ctx.fail('dask_result_differs_in_metadata', inp, impl=why)
+            continue
+        wd, gd = np.asarray(want.data), np.asarray(gc.data)
+        fin = np.isfinite(wd)
+        mx = float(np.max(np.abs(np.where(fin, wd, 0)))) + 1e-300 if wd.size else 1.0
+        tol = (2e-5 if single else 1e-11) * mx
+        e = float(np.max(np.abs(np.where(fin, gd - wd, 0)))) if wd.size else 0.0
+        ctx.ratio(e, tol)
+        if not np.array_equal(fin, np.isfinite(gd)) or not (e <= tol):
+            ctx.fail('dask_values_differ', inp, impl=e, model=tol)
+
     res = ctx.run_cases(HEADER, items, shard=max(60, len(items) // 16 + 1))
     if res is None:
         return
